@@ -492,6 +492,13 @@ def run(ctx: Ctx) -> None:
         "SNPATHREF through a TABLE-STRUCT parameter follows the odxtools reading <table-struct>.<parameter of the row structure>",
         "candidate lists are homogeneous (all ECU variants or all base variants), as the constructor's type says",
     ]
+    ctx.extra["state_definition"] = (
+        "state = (candidate list, cache flag, decided part of the ECU function in order of first use = sequence of answered "
+        "(request, answer) pairs) plus one verdict state per finished run; transitions = requests answered (tree edges). "
+        "impl_states = distinct observed (generator position (variant, pattern, parameter), req_resp_cache contents, "
+        "_recent_ident_response, _state) per candidate list and cache flag. evaluations = (list, total ECU function, cache flag) "
+        "triples whose verdict was compared with the reference; impl_runs = complete runs of request_loop() on a fresh matcher "
+        "(one per leaf of the lazily enumerated ECU function tree; each total function extends exactly one leaf -- asserted).")
     pmap(ctx, list_unit, units)
     c = ctx.counts
     ctx.sample({"family": "main", "cands": [fams[0].pool[5], fams[0].pool[20]], "ecu": {"P:22f100": "V2", "P:22f101": "V1"}})
